@@ -872,7 +872,8 @@ pub fn check(ctx: &Ctx) {
     let mut ec = Vec::new();
     let v4k = [KeyKind::Ed25519V4, KeyKind::Ed25519LegacyV4, KeyKind::EcdsaP256V4, KeyKind::EcdsaP521V4, KeyKind::Rsa2048V4];
     let v6k = [KeyKind::Ed25519V6, KeyKind::Ed448V6, KeyKind::EcdsaP256V6];
-    for (keys, v2) in [(&v4k[..], false), (&v6k[..], true)] {
+    // (v6 keys are also addressed by version 3 PKESK packets, in front of a SEIPDv1 container)
+    for (keys, v2) in [(&v4k[..], false), (&v6k[..], true), (&v6k[..], false)] {
         for k in keys {
             for anonymous in [false, true] {
                 ec.push(MsgEskCase { recipients: vec![(*k, anonymous)], v2 });
@@ -892,7 +893,7 @@ pub fn check(ctx: &Ctx) {
     ctx.run_space(
         "message_recipient_fields",
         true,
-        "MessageBuilder encrypt_to_key / encrypt_to_key_anonymous for each public-key algorithm and for 2 and 3 recipients in every named / anonymous pattern: the i-th PKESK carries the i-th recipient subkey's key id (v3) / fingerprint (v6), or the wildcard / empty form",
+        "MessageBuilder encrypt_to_key / encrypt_to_key_anonymous for each public-key algorithm (v6 keys behind v6 and behind v3 PKESK packets) and for 2 and 3 recipients in every named / anonymous pattern: the i-th PKESK carries the i-th recipient subkey's key id (v3) / fingerprint (v6), or the wildcard / empty form",
         ec.into_par_iter(),
         run_msg_esk,
     );
